@@ -55,7 +55,27 @@ package quicutils
 //@   ensures result == len(l)
 
 //@ func BigEndianUvarint
+//@   assumed-ensures result0 < 4611686018427387904   // a QUIC varint carries at most 62 value bits (2 of the 64 are the length prefix)
 //@   ensures result2 == nil ==> 1 <= result1 && result1 <= 8 && result1 <= len(buf)
 //@   ensures result2 != nil ==> result1 == 0
 //@   loop 1
 //@     invariant 1 <= i && i <= length && length <= len(buf)
+
+// C06: removing QUIC header protection rewrites, in place, exactly the first byte of the packet and the
+// four packet-number bytes (trusted: the AEAD/HKDF code is not modelled); everything else is read only.
+//@ func DecryptQuic_
+//@   trusted
+//@   requires 0 <= pnOffset && pnOffset + 4 <= len(buf)
+//@   modifies elems(buf)
+//@   ensures forall k int {buf[k]} :: 0 < k && k < len(buf) && (k < pnOffset || k >= pnOffset + 4) ==> buf[k] == old(buf[k])
+
+// C06: reassembly of CRYPTO frames. When two fragments overlap or touch, the merged fragment carries, at
+// every stream position, the byte of the fragment that covers it (the earlier fragment wins inside the
+// overlap, the later one supplies only the bytes beyond the earlier one's end).
+//@ func ReassembleCryptos
+//@   anchorsonly
+//@   dyncalls noeffect
+//@   trustframe
+//@   modifies elems(offsets)
+//@   at call builtin:copy#1 assert fresh(a0) && a1 == current.Data
+//@   at call builtin:copy#2 assert-after forall p int {newData[p - current.UpperAppOffset]} :: current.UpperAppOffset <= p && p < next.UpperAppOffset + len(next.Data) ==> newData[p - current.UpperAppOffset] == (p < currentEnd ? current.Data[p - current.UpperAppOffset] : next.Data[p - next.UpperAppOffset])
